@@ -21,6 +21,7 @@ def main(argv=None):
     ap.add_argument('--tier', default=os.environ.get('VERIF_TIER', 'quick'))
     ap.add_argument('--repo', default=os.environ.get('VERIF_REPO', '/repo'))
     ap.add_argument('--explain')
+    ap.add_argument('--no-evidence', action='store_true')
     args = ap.parse_args(argv)
     tier = args.tier if args.tier in ('quick', 'thorough') else 'quick'
     seed = int(os.environ.get('VERIF_SEED', '0') or 0)
@@ -48,6 +49,20 @@ def main(argv=None):
                         rule, counts.get(rule, 0), n))
         if tier == 'thorough' and hasattr(mod, 'thorough'):
             mod.thorough(repo, res)
+        if tier == 'thorough' and not os.environ.get('SA_NO_SELFTEST'):
+            from . import selftest
+            st = selftest.run(prop, args.repo)
+            res.extra['selftest'] = st
+            t = st['tally']
+            print('SELFTEST %s: %s' % (prop, ', '.join('%s=%d' % kv for kv in sorted(t.items()))))
+        if args.no_evidence:
+            for f in res.findings:
+                print('VIOLATION property=%s replay=-' % prop)
+                print('  rule %s at %s in %s: %s' % (f.rule, f.where, f.func, f.message))
+            from .report import load_known, norm_construct
+            known, _ = load_known()
+            new = [f for f in res.findings if norm_construct(f.key) not in known]
+            return 1 if new else 0
         return finish(res, tier, seed, t0, repo)
     except AnalysisError as e:
         print('ANALYSIS-ERROR property=%s %s' % (prop, e))
